@@ -177,6 +177,7 @@ impl<'a> Ctx<'a> {
                 match g {
                     Generic::Reg(_) => {
                         let sig = self.trait_sig(&name)?;
+                        self.calls.insert(("R".to_string(), "T".to_string(), name.clone()));
                         return Some(Target::Fn { head: format!("{head}.{name}"), sig, monadic: true });
                     },
                     Generic::Math(_) => {
